@@ -247,7 +247,10 @@ where
     }
 
     fn call(&mut self, req: Req) -> Self::Future {
-        let mut service = self.inner.clone();
+        // The first attempt goes to the instance that `poll_ready` was called on; a
+        // fresh clone is left behind for the next `poll_ready`/`call` cycle.
+        let clone = self.inner.clone();
+        let mut service = std::mem::replace(&mut self.inner, clone);
         let config = Arc::clone(&self.config);
 
         // Extract max_attempts from request before moving it
